@@ -1,13 +1,13 @@
 (* C19 - Rendering is a pure function of its inputs: property theorems only
-   (models: model/C19Cache.v C19Names.v C19Pdf.v C19Relayout.v; proofs: proofs/C19_*.v).
+   (models: model/C19Cache.v C19Names.v C19Pdf.v C19Relayout.v C19Args.v C19Dates.v; proofs: proofs/C19_*.v).
    In Gallina every function is pure: the theorems are about the models that carry the STATE the code carries (the
    caller's image cache and the image objects in it, the resource dictionaries and the iteration order of a
    set, the style dictionary flex layout writes into) and about the output options (zoom, copy).  Hash-seed
    independence, module-level state and dict/set iteration order of the real interpreter are covered by the
    differential monitor of harness/p_c19.py only. *)
 From Coq Require Import ZArith QArith List Bool Permutation.
-Require Import WV.model.C19Args WV.model.C19Cache WV.model.C19Names WV.model.C19Pdf WV.model.C19Relayout.
-Require Import WV.proofs.C19_args WV.proofs.C19_cache WV.proofs.C19_names WV.proofs.C19_pdf WV.proofs.C19_relayout.
+Require Import WV.model.C19Args WV.model.C19Cache WV.model.C19Names WV.model.C19Pdf WV.model.C19Relayout WV.model.C19Dates.
+Require Import WV.proofs.C19_args WV.proofs.C19_cache WV.proofs.C19_names WV.proofs.C19_pdf WV.proofs.C19_relayout WV.proofs.C19_dates.
 Import ListNotations.
 
 (* ---- 1. the image cache (get_image_from_uri + options['cache']), all operation histories ----
@@ -234,3 +234,51 @@ Theorem C19_arguments_are_read_only_in_place_variant_refuted :
   snd (render_calls render_call [1; 2] [Raw 7]) = [[(7, true)]; [(7, true)]].
 Proof. exact in_place_variant_refuted. Qed.
 Print Assumptions C19_arguments_are_read_only_in_place_variant_refuted.
+
+(* ---- 7. the environment is an input, the clock is not: the dates written into the PDF ----
+   write epoch clock d: Info /CreationDate /ModDate, the /Params dates of every /EmbeddedFile, head.modified of every
+   font program, for the dated document d (its <meta> dates, its attachments as constructed - source kind, created / modified
+   arguments, times of the named file -, its fonts), SOURCE_DATE_EPOCH = epoch and the system clock `clock` (the k-th
+   read gives clock k).  With the variable set - to ANY value, 0 included - two executions under any two clocks write the
+   same dates ... *)
+Theorem C19_dates_ignore_the_clock (e : Z) (clock1 clock2 : nat -> Z) (d : dated) :
+  write (Some e) clock1 d = write (Some e) clock2 d.
+Proof. exact (dates_ignore_the_clock e clock1 clock2 d). Qed.
+Print Assumptions C19_dates_ignore_the_clock.
+
+(* ... and every date is the one the document gives or, when it gives none, the epoch (date_ok: created / modified given
+   -> that value; else a Filename attachment -> the file's times, an input; else e).  Decided by the harness on every
+   single render of the epoch stream (date_judge), without a second render and without the real clock *)
+Theorem C19_default_dates_are_the_epoch (e : Z) (clock : nat -> Z) (d : dated) :
+  w_info (write (Some e) clock d) = (d_created d, d_modified d) /\
+  Forall2 (fun a w => date_ok e a w = true) (d_attachments d) (w_files (write (Some e) clock d)) /\
+  Forall (fun w => font_ok e (map f_file_modified (d_font_programs d)) w = true) (w_fonts (write (Some e) clock d)).
+Proof. exact (default_dates_are_the_epoch e clock d). Qed.
+Print Assumptions C19_default_dates_are_the_epoch.
+
+(* the judge evaluated on the implementation's PDFs: mask 0 means every date found in the PDF obeys the above *)
+Theorem C19_date_judge_sound e t meta infos files font_files fonts others :
+  date_judge (Some e, t, meta, infos, files, font_files, fonts, others) = 0%nat ->
+  Forall (fun aw => date_ok e (fst aw) (snd aw) = true) files /\
+  Forall (fun w => font_ok e font_files w = true) fonts /\
+  Forall (fun w => w = e) others /\
+  Forall (fun i => oz_eqb (fst i) (fst meta) = true /\ oz_eqb (snd i) (snd meta) = true) infos.
+Proof. exact (date_judge_sound e t meta infos files font_files fonts others). Qed.
+Print Assumptions C19_date_judge_sound.
+
+(* a test of the VALUE of the variable for truth is the code for every non-zero value ... *)
+Theorem C19_dates_truthy_variant_agrees_off_zero (e : Z) (clock : nat -> Z) (l : list attachment) :
+  e <> 0 -> forall k, attachments_dates_truthy (Some e) clock k l = attachments_dates (Some e) clock k l.
+Proof. exact (truthy_variant_agrees_off_zero e clock l). Qed.
+Print Assumptions C19_dates_truthy_variant_agrees_off_zero.
+
+(* ... and writes the clock at SOURCE_DATE_EPOCH=0 (<link rel=attachment>, clocks 1000 and 1001): hence the epoch is a
+   dimension of the stream, with 0 among its values *)
+Theorem C19_dates_truthy_variant_refuted :
+  attachments_dates_truthy (Some 0) (fun _ => 1000) 0 [linked] = [(1000, 1000)] /\
+  attachments_dates_truthy (Some 0) (fun _ => 1001) 0 [linked] = [(1001, 1001)] /\
+  attachments_dates (Some 0) (fun _ => 1000) 0 [linked] = [(0, 0)] /\
+  attachments_dates (Some 0) (fun _ => 1001) 0 [linked] = [(0, 0)] /\
+  date_ok 0 linked (1000, 1000) = false.
+Proof. exact truthy_variant_refuted. Qed.
+Print Assumptions C19_dates_truthy_variant_refuted.
